@@ -72,6 +72,23 @@ def run(ctx):
     rule_d(ctx, cr)
     rule_e(ctx, cr)
     rule_f(ctx, cr)
+    ctx.rule("C02.g", "conversion to Integer (assignment to a % variable, \\, MOD, logical "
+             "operators, CINT, subscripts) floors and range-tests a Single in f32 and a Double in "
+             "f64: no narrowing float conversion feeds the float->i16 cast (see C08.e)")
+    from rules import c08
+
+    class _P:
+        def __init__(self, c):
+            self.c = c
+
+        def __getattr__(self, n):
+            return getattr(self.c, n)
+
+        def check(self, cond, rule, key, *a, **k):
+            return self.c.check(cond, "C02.g", key, *a, **k)
+    conv = cr.need_fn("<i16 as std::convert::TryFrom<mach::val::Val>>::try_from")
+    ctx.touch(conv)
+    ctx.floor("C02.g", "float->i16 casts in the Val->Integer conversion", c08.rule_e(_P(ctx), conv), 2)
 
 
 def rule_a(ctx, cr):
